@@ -87,7 +87,7 @@ def detect(d, props, tier, budget):
     if rc != 0:
         rc, out = sh(f"git apply --3way {d}/patch.diff", cwd=REPO)
         if rc != 0:
-            sh("git checkout -- .", cwd=REPO)
+            sh("git reset -q --hard HEAD", cwd=REPO)
             res["error"] = "patch does not apply: " + out[-300:]
             json.dump(res, open(os.path.join(d, "detect.json"), "w"), indent=1)
             return res
@@ -101,7 +101,7 @@ def detect(d, props, tier, budget):
             res["checks"][p] = {"rc": rc, "violations": len(viol), "first": [v[:300] for v in viol[:3]], "wall": round(time.time() - t0),
                                 "head": out.splitlines()[0][:200] if out else ""}
     finally:
-        sh("git checkout -- .", cwd=REPO)
+        sh("git reset -q --hard HEAD", cwd=REPO)
         sh("git clean -fdq photon_weave", cwd=REPO)
     res["detected"] = any(c["rc"] == 1 for c in res["checks"].values())
     json.dump(res, open(os.path.join(d, "detect.json"), "w"), indent=1)
